@@ -1,8 +1,8 @@
 SPECIFICATION Spec
 CONSTANTS
-  Dims = {1, 2, 3}
+  Dims = {1, 2, 3, 5}
   Conds = {0, 1, 2}
-  Widths = {1, 2, 3, 5}
+  Widths = {1, 2, 3, 5, 6}
   Depths = {0, 1, 2}
   NPars = {1, 2}
   EmitCases = TRUE
